@@ -240,7 +240,28 @@ def run(ctx):
             errv = x["vars"][0]["name"] if x.get("k") == "decl" and x.get("vars") else None
             last = order[2][3]
             t = f.term(last)
-            okc = errv is not None and t.get("cond") is not None and fmt(t["cond"]) in ("(%s != nullptr)" % errv, errv)
+            okc = False
+            if errv is not None and t.get("cond") is not None:
+                ct = fmt(ir.unwrap(t["cond"]))
+                # which edge means "the loader reported an error": true of `err != nullptr` / `err`, false of `err == nullptr` / `!err`
+                err_label = {"(%s != nullptr)" % errv: "true", errv: "true", "(nullptr != %s)" % errv: "true", "(%s == nullptr)" % errv: "false", "(nullptr == %s)" % errv: "false",
+                             "!%s" % errv: "false", "(!%s)" % errv: "false"}.get(ct)
+                if err_label is not None:
+                    tgt = {lab: to for to, lab in f.succs(last)}
+                    def _reach(src):
+                        seen, st = set(), [src]
+                        while st:
+                            b0 = st.pop()
+                            if b0 in seen:
+                                continue
+                            seen.add(b0)
+                            if not f.is_noreturn(b0):
+                                st.extend(to for to, _ in f.succs(b0))
+                        return seen
+                    on_err = _reach(tgt.get(err_label))
+                    on_ok = _reach(tgt.get("false" if err_label == "true" else "true"))
+                    # with an error every way out raises; without one none does
+                    okc = f.exit not in on_err and not any(f.is_noreturn(b0) for b0 in on_ok)
             ctx.check(okc, "R19.5", f, "error-decides:" + tag, "the outcome is decided by %s instead of the dlerror() result (a null symbol address is legal)" % (fmt(t.get("cond")) if t.get("cond") is not None else "nothing"), f)
             for bb in f.reachable_blocks():
                 if f.is_noreturn(bb):
